@@ -91,6 +91,7 @@ type Exec struct {
 	envRunning   bool
 	idleTicks    int
 	prefer       *Term
+	natural      bool
 	coros        []*coro
 	curCoro      *coro
 	progress     int
@@ -341,6 +342,14 @@ func (e *Exec) obligeX(cond Term, kind, msg string, assumeAfter bool) {
 		if !e.seenFind[key] {
 			e.seenFind[key] = true
 			var m map[string]string
+			if e.natural && e.prefer == nil {
+				// prefer a counterexample with "ordinary" input values (distinct, odd, neither
+				// tiny nor huge): more likely to reproduce natively when the failure also
+				// depends on something the executor abstracts (floating point)
+				if nat, ok := e.naturalModel(); ok {
+					m = nat
+				}
+			}
 			if e.prefer != nil {
 				// a more telling counterexample if there is one (e.g. a large allocation)
 				e.sol.Push()
@@ -413,6 +422,52 @@ func (e *Exec) assume(cond Term) {
 	if e.sol.Check() == "unsat" {
 		panic(pathEnd{"assume infeasible"})
 	}
+}
+
+// naturalModel looks for a model of the current solver state in which the harness inputs
+// (integer symbols other than the executor's own nondeterminism) are pairwise distinct odd
+// numbers in 3..2^40.
+func (e *Exec) naturalModel() (map[string]string, bool) {
+	var ins []Term
+	for _, n := range e.pathSyms {
+		if strings.HasPrefix(n, "f2i_") || strings.HasPrefix(n, "fcmp_") || strings.HasPrefix(n, "select_") || strings.HasPrefix(n, "cz!") || strings.HasPrefix(n, "clock_") {
+			continue
+		}
+		srt, ok := e.sol.decls[n]
+		if !ok {
+			continue
+		}
+		switch {
+		case srt == "Int":
+			ins = append(ins, Term{S: n, Sort: SInt})
+		case strings.HasPrefix(srt, "(_ BitVec 64)"):
+			ins = append(ins, Term{S: n, Sort: 64})
+		}
+	}
+	if len(ins) == 0 {
+		return nil, false
+	}
+	e.sol.Push()
+	defer e.sol.Pop()
+	for i, t := range ins {
+		lo, hi := int64(3+2*i), int64(1)<<40
+		if t.Sort == SInt {
+			e.sol.Assert(And(IntCmp(">=", t, IntC(big.NewInt(lo))), IntCmp("<", t, IntC(big.NewInt(hi)))))
+			e.sol.Assert(IntCmp("=", app(SInt, "mod", t, IntC(big.NewInt(2))), IntC(big.NewInt(1))))
+		} else {
+			e.sol.Assert(And(tLe(i64(int(lo)), t), tLe(t, i64(int(hi)))))
+			e.sol.Assert(Eq(BVBin("&", t, BVu(64, 1), false), BVu(64, 1)))
+		}
+		for _, u := range ins[:i] {
+			if u.Sort == t.Sort {
+				e.sol.Assert(Not(Eq(t, u)))
+			}
+		}
+	}
+	if e.sol.Check() != "sat" {
+		return nil, false
+	}
+	return e.sol.GetValues(e.pathSyms), true
 }
 
 func (e *Exec) fresh(name string, sort int) Term {
@@ -1035,6 +1090,9 @@ func (e *Exec) unop(fr *frame, in *ssa.UnOp) Value {
 	case token.NOT:
 		return VBool{Not(x.(VBool).T)}
 	case token.SUB:
+		if isFloat(in.X.Type()) {
+			return floatTok
+		}
 		t := x.(VInt).T
 		if intMode {
 			w, sg := typeWS(in.X.Type())
@@ -1057,7 +1115,25 @@ func isSigned(t types.Type) bool {
 	return false
 }
 
+func isFloat(t types.Type) bool {
+	b, ok := t.Underlying().(*types.Basic)
+	return ok && b.Info()&types.IsFloat != 0
+}
+
+// floats are abstracted: every floating-point result is an opaque token, every comparison of
+// floats and every float-to-integer conversion a fresh nondeterministic value. What is decided
+// about code that computes through float64 therefore holds for any floating-point behaviour.
+var floatTok = VOpaque{"float"}
+
 func (e *Exec) binop(op token.Token, x, y Value, xt types.Type) Value {
+	if isFloat(xt) {
+		switch op {
+		case token.EQL, token.NEQ, token.LSS, token.LEQ, token.GTR, token.GEQ:
+			e.nondet++
+			return VBool{e.fresh(sprintf("fcmp_%d", e.nondet), SBool)}
+		}
+		return floatTok
+	}
 	switch a := x.(type) {
 	case VInt:
 		b := y.(VInt)
@@ -1201,6 +1277,19 @@ func (e *Exec) ifaceEq(a, b VIface) Term {
 }
 
 func (e *Exec) convert(x Value, from, to types.Type) Value {
+	if isFloat(to) {
+		return floatTok
+	}
+	if isFloat(from) {
+		if tb, ok := to.Underlying().(*types.Basic); ok && tb.Info()&types.IsInteger != 0 {
+			e.nondet++
+			w, sg := intWidth(tb)
+			if intMode {
+				return VInt{e.imFresh(sprintf("f2i_%d", e.nondet), w, sg)}
+			}
+			return VInt{e.fresh(sprintf("f2i_%d", e.nondet), w)}
+		}
+	}
 	switch a := x.(type) {
 	case VInt:
 		if tb, ok := to.Underlying().(*types.Basic); ok {
@@ -1774,6 +1863,7 @@ func (e *Exec) runInits(pkgs []string) {
 //	@hash:<name>:<n>   idealised hash: an uninterpreted function (per input length) of the
 //	                   input bytes, returning an [n]byte array
 //	@pred:<name>       uninterpreted predicate over all byte arguments (signature checks)
+//	@float             a float64-valued function: any value (floats are abstracted)
 func (e *Exec) builtinStub(spec string, fn *ssa.Function, args []Value) Value {
 	parts := strings.Split(spec, ":")
 	switch parts[0] {
@@ -1790,6 +1880,9 @@ func (e *Exec) builtinStub(spec string, fn *ssa.Function, args []Value) Value {
 			arr.Elems[i].V = out[i]
 		}
 		return VSlice{arr, 0, n, n}
+	case "@float":
+		// a function that computes a float64: any value (floats are abstracted)
+		return floatTok
 	case "@pred":
 		var all []Term
 		for _, a := range args {
